@@ -8,6 +8,7 @@ import logging
 import os
 import sys
 import textwrap
+from collections.abc import Mapping
 from itertools import chain
 
 from ._utility import _mkdir_p
@@ -56,15 +57,29 @@ def create_linked_view(project, prefix=None, job_ids=None, path=None):
     else:
         jobs = list(project.open_job(id=job_id) for job_id in job_ids)
 
-    key_list = [k for job in jobs for k in job.statepoint().keys()]
-    value_list = [v for job in jobs for v in job.statepoint().values()]
-    item_list = key_list + value_list
-    bad_items = [item for item in item_list if isinstance(item, str) and os.sep in item]
+    def _path_components(statepoint):
+        """Yield the keys and formatted values of a (nested) state point."""
+        for key, value in statepoint.items():
+            yield key
+            if isinstance(value, Mapping):
+                yield from _path_components(value)
+            else:
+                yield str(value)
+
+    # Keys and values become components of the link paths: they must not
+    # contain the path separator or denote the current or parent directory.
+    bad_items = [
+        item
+        for job in jobs
+        for item in _path_components(job.statepoint())
+        if os.sep in item or item in (os.curdir, os.pardir)
+    ]
 
     if any(bad_items):
         err_msg = " ".join(
             [
-                f"In order to use view, state points should not contain {os.sep}:",
+                f"In order to use view, state points should not contain {os.sep}",
+                f"or be equal to '{os.curdir}' or '{os.pardir}':",
                 str(set(bad_items)),
             ]
         )
